@@ -3,6 +3,7 @@ from vk.symx.harness import guarded
 import numpy as np
 
 from vk.rtc.harness import run_cases
+from vk.specs import dyn as Dn
 from vk.specs import chain as S
 from vk.specs import universe as U
 
@@ -34,7 +35,7 @@ def build_states(model, sectors, rng, tier):
         out.append((f"a+b (redundant bonds) q={q}", a.add(b)))
         out.append((f"a+a (rank-deficient bonds) q={q}", a.add(a)))
         terms = U.random_terms(model, rng, 3)
-        if terms:
+        if terms and np.abs(U.dense_terms(model, terms)).max() > 1e-12:      # (a cancelling term list is rejected by the constructor: C01's domain)
             H = Mpo(model, terms)
             out.append((f"H@a q={q}", H.apply(a)))
             out.append((f"MPO H", H))
@@ -66,6 +67,43 @@ def schmidt_ranks(v, dims, is_op):
         sv = np.linalg.svd(t.reshape(int(np.prod(sz[:k])), -1), compute_uv=False)
         out.append(max(1, int(np.sum(sv > 1e-10 * max(sv[0], 1e-300)))))
     return out
+
+
+def w_variational_long(case, led):
+    """operator-times-state on an 8-site chain with a conserved number, bond-dimension-one guess, plain sweeps: the routine may only stop when its own convergence
+    test is met, so its result is a fixed point of a further call (accuracy from such a start is not asserted, see worker)"""
+    _, n, seed, tier = case
+    from renormalizer.mps import Mpo
+    from renormalizer.utils import CompressCriteria, CompressConfig
+    rng = np.random.default_rng([seed, n, 414])
+    model, terms, sectors = Dn.hamiltonian("spinqn", n, rng)
+    H = Mpo(model, terms)
+    for q in (sectors[len(sectors) // 2], sectors[len(sectors) // 2 - 1]):
+        b = U.make_state(model, q, 4, rng, complex_=True)
+        if b is None or np.linalg.norm(S.dense(H) @ S.dense(b)) < 1e-8:
+            continue
+        for proc_name, proc in (("plain", [[64, 0]] * 14), ("default", None)):
+            cfg = CompressConfig(CompressCriteria.fixed, max_bonddim=64)
+            cfg.vmethod, cfg.vguess_m, cfg.vrtol = "2site", (1, 1), 1e-8
+            if proc:
+                cfg.vprocedure = proc
+            b2 = b.copy()
+            b2.compress_config = cfg
+            key = ("spinqn", n, seed, str(q), "variational-long", proc_name)
+            rep = {"model": "spinqn", "nsites": n, "sector": q, "vmethod": "2site", "vguess_m": [1, 1], "vprocedure": proc_name, "vrtol": 1e-8, "seed": seed}
+            try:
+                r = b2.variational_compress(H)
+                g = r.copy()
+                g.compress_config = cfg
+                r2 = b2.variational_compress(H, guess=g)
+                d = np.linalg.norm(S.dense(r2) - S.dense(r)) / max(np.linalg.norm(S.dense(r)), 1e-300)
+                led.check(d <= 1e-5, "post:MatrixProduct.variational_compress:result_is_a_fixed_point", "MatrixProduct.variational_compress",
+                          f"a second call started from the result moves it by {d:.2e} (bonds {list(r.bond_dims)} -> {list(r2.bond_dims)})", key, {"vmethod": "2site", "start": "poor"}, rep)
+            except (AssertionError, FloatingPointError, ZeroDivisionError):
+                led.ok("skipped:MatrixProduct.variational_compress:zero_guess", "MatrixProduct.variational_compress", key + ("zero",), nontrivial=False)
+            except Exception as e:
+                led.check(False, "post:MatrixProduct.variational_compress:total", "MatrixProduct.variational_compress", f"raised {type(e).__name__}: {e}", key,
+                          {"vmethod": "2site", "start": "poor"}, rep)
 
 
 def worker(case, led):
@@ -181,7 +219,7 @@ def worker(case, led):
         q = sectors[len(sectors) // 2]
         a = U.make_state(model, q, 3, rng)
         terms = U.random_terms(model, rng, 3)
-        if a is not None and terms:
+        if a is not None and terms and np.abs(U.dense_terms(model, terms)).max() > 1e-12:
             H = Mpo(model, terms)
             ref = S.dense(H) @ S.dense(a)
             if np.linalg.norm(ref) > 1e-8:
@@ -202,7 +240,33 @@ def worker(case, led):
                     except Exception as e:
                         led.check(False, "post:MatrixProduct.variational_compress:total", "MatrixProduct.variational_compress",
                                   f"raised {type(e).__name__}: {e}", key, {"vmethod": vmethod}, rep)
-
+                # a deliberately poor start (bond-dimension-one guess): whatever the routine returns after its own convergence test
+                # |new - old| / |new| < vrtol must be a fixed point of a further call started from it.  (Whether the fixed point is the global optimum depends on
+                # the start: with vguess_m = (1, 1) the two-site fit can stay in the symmetry sectors of its guess also on the unchanged code, so accuracy is
+                # asserted for the default start only - above.)
+                b = U.make_state(model, q, 4, rng, complex_=True)
+                if b is not None and np.linalg.norm(S.dense(H) @ S.dense(b)) > 1e-8:
+                    cfg = CompressConfig(CompressCriteria.fixed, max_bonddim=64)
+                    cfg.vmethod, cfg.vguess_m, cfg.vrtol = "2site", (1, 1), 1e-8
+                    b2 = b.copy()
+                    b2.compress_config = cfg
+                    key = (name, n, "variational", "poor-start")
+                    rep = {"model": name, "nsites": n, "sector": q, "terms": [repr(t) for t in terms], "vmethod": "2site", "vguess_m": [1, 1], "vrtol": 1e-8, "seed": seed}
+                    try:
+                        r = b2.variational_compress(H)
+                        g = r.copy()
+                        g.compress_config = cfg
+                        r2 = b2.variational_compress(H, guess=g)
+                        d = np.linalg.norm(S.dense(r2) - S.dense(r)) / max(np.linalg.norm(S.dense(r)), 1e-300)
+                        led.check(d <= 1e-5, "post:MatrixProduct.variational_compress:result_is_a_fixed_point", "MatrixProduct.variational_compress",
+                                  f"a second call started from the result moves it by {d:.2e} (bonds {list(r.bond_dims)} -> {list(r2.bond_dims)})", key + ("fixed-point",),
+                                  {"vmethod": "2site", "start": "poor"}, rep)
+                    except (AssertionError, FloatingPointError, ZeroDivisionError):
+                        # the bond-dimension-one guess can be the zero state, which the library refuses (assertion in canonicalise / division by its norm)
+                        led.ok("skipped:MatrixProduct.variational_compress:zero_guess", "MatrixProduct.variational_compress", key + ("zero",), nontrivial=False)
+                    except Exception as e:
+                        led.check(False, "post:MatrixProduct.variational_compress:total", "MatrixProduct.variational_compress",
+                                  f"poor-start run raised {type(e).__name__}: {e}", key, {"vmethod": "2site", "start": "poor"}, rep)
 
 def check(run):
     from props import C04_proof
@@ -215,6 +279,7 @@ def check(run):
     cases = [(name, n, s, run.tier) for name in ("spin", "spinqn", "spin2qn", "holstein", "multi") for n in ns for s in seeds
              if not (name == "multi" and n < 2)]
     run_cases(run, worker, cases)
+    run_cases(run, w_variational_long, [("vlong", 8, s, run.tier) for s in seeds] + ([("vlong", 7, s, run.tier) for s in seeds] if run.tier != "quick" else []))
     run.rule = ("states reachable by arithmetic {random, sums with redundant / rank-deficient bonds, H@a, product state, MPOs and MPO sums} x 1..4(5) sites "
                 "x both sweep directions x {full sweep, two sweeps, idempotence, every stop site incl. the current centre, lossless compress, "
                 "ensure_left/right from every centre, variational compression}; distinct = (model,size,state,direction,clause)")
